@@ -59,6 +59,8 @@ Rec(t) == LET d == Dec8Seq(t) IN
            up |-> IF IsAscii(t) THEN AsciiUpper(t) ELSE <<>>,
            lo |-> IF IsAscii(t) THEN AsciiLower(t) ELSE <<>>,
            p |-> Flip(t),                                                    \* partners for equalsNocase: case flipped,
-           q |-> IF t = <<>> THEN <<>> ELSE SubSeq(t, 1, Len(t) - 1)]        \* and a proper prefix (never equal for ASCII)
+           q |-> IF t = <<>> THEN <<>> ELSE SubSeq(t, 1, Len(t) - 1),        \* and a proper prefix (never equal for ASCII)
+           \* hazard tag: the string ends in the lead byte of a two-byte sequence (110xxxxx) whose continuation is missing
+           hz |-> IF t # <<>> /\ t[Len(t)] >= 192 /\ t[Len(t)] <= 223 THEN {"CountTruncatedLead"} ELSE {}]
 Emit == PrintT(ToJson(Rec(CStr(s'))))
 ===============================================================================
